@@ -102,7 +102,107 @@ func runDebug(c J) J {
 		}()
 	}
 	obs["pub"] = pub
+
+	// (c) the public entry point twice with the same source and two map environments that differ in the type of a
+	// name the program does not use: neither call may be influenced by the other
+	pub2 := J{"class": "unrealisable"}
+	func() {
+		defer func() {
+			if r := recover(); r != nil {
+				if _, ok := r.(unrealisable); ok {
+					return
+				}
+				pub2["class"] = "panic"
+				pub2["msg"] = clip(fmt.Sprint(r), 120)
+			}
+		}()
+		used := map[string]bool{}
+		collectIds(e, used)
+		binds := A{}
+		for _, b := range arr(c["env"]) {
+			if used[str(obj(b)["n"])] {
+				binds = append(binds, b)
+			}
+		}
+		var ha, hb map[string]interface{}
+		func() {
+			// what the harness cannot build as map entries (optionals anywhere inside, lists of records laid out in
+			// different field orders) is not a finding about yae
+			defer func() {
+				if r := recover(); r != nil {
+					panic(unrealisable{fmt.Sprint(r)})
+				}
+			}()
+			for _, b := range binds {
+				if deepMaybe(obj(obj(b)["v"])) {
+					panic(unrealisable{"optional inside a map entry"})
+				}
+			}
+			ha = hostOf("map", binds, "P").(map[string]interface{})
+			hb = hostOf("map", binds, "P").(map[string]interface{})
+		}()
+		ha["zz9"] = 1
+		hb["zz9"] = "one"
+		one := func(h interface{}) J {
+			v, report, err := yae.Debug(src, h)
+			r := J{"report": cps(report), "v": J{"k": "nil"}, "kind": ""}
+			if err != nil {
+				r["class"] = "error"
+				r["kind"] = classify(err.Error())
+				r["msg"] = clip(err.Error(), 120)
+			} else {
+				r["class"] = "value"
+				r["v"] = valJ(v)
+			}
+			return r
+		}
+		ra := one(ha)
+		rb := one(hb)
+		pub2["class"] = "ran"
+		pub2["a"] = ra
+		pub2["b"] = rb
+	}()
+	obs["pub2"] = pub2
 	return obs
+}
+
+func deepMaybe(j J) bool {
+	if j["k"] == "maybe" {
+		return true
+	}
+	for _, v := range j {
+		switch x := v.(type) {
+		case map[string]interface{}:
+			if deepMaybe(x) {
+				return true
+			}
+		case []interface{}:
+			for _, y := range x {
+				if m, ok := y.(map[string]interface{}); ok && deepMaybe(m) {
+					return true
+				}
+			}
+		}
+	}
+	return false
+}
+
+func collectIds(j J, into map[string]bool) {
+	if j["k"] == "id" {
+		into[str(j["n"])] = true
+	}
+	for _, v := range j {
+		switch x := v.(type) {
+		case map[string]interface{}:
+			collectIds(x, into)
+		case []interface{}:
+			for _, y := range x {
+				if m, ok := y.(map[string]interface{}); ok {
+					collectIds(m, into)
+				}
+			}
+		}
+	}
 }
 
 func nzInt(x interface{}) interface{} {
